@@ -135,6 +135,9 @@ def _option_lines(text):
     return [ln for ln in (text or "").split("\n") if ln.startswith("CONFIG_") or (ln.startswith("# CONFIG_") and ln.endswith(" is not set"))]
 
 
+FRESH_DIRTY = "\n<a fresh session on this file reports unsaved changes>"
+
+
 def _empty_numeric_cause(k, text) -> str:
     """'|empty-numeric-value' when the file holds an UNMARKED 'CONFIG_X=' of an int / hex / float option: the root cause of
     the open C02 / C08 finding (an option without effective value that carries an ineffective user value is written
@@ -164,9 +167,23 @@ def clean_invariant(drv, res: Result, where: str, reload_fn=None) -> bool:
     if disk != would and reload_fn is not None:
         # a hand-edited file may spell the same configuration differently (order, header, entries for hidden options):
         # what matters is that starting again from the file on disk yields exactly what would be saved now
+        on_disk = disk
         again = reload_fn(disk)
         if again == would:
             return True
+        if again == would + FRESH_DIRTY:
+            # the configuration is the same, but a session started afresh on this very file says that saving is needed:
+            # name what in the file makes it say so (the root cause), so that each cause is a finding of its own
+            k_ = drv.state.kconf
+            names = [ln[len("CONFIG_") :].split("=", 1) for ln in on_disk.split("\n") if ln.startswith("CONFIG_") and "=" in ln]
+            if any(n not in k_.syms or not k_.syms[n].nodes for n, _v in names):
+                cause = "unknown-entry"
+            elif any(n in k_.syms and k_.syms[n].choice is not None and v == "y" and k_.syms[n].str_value != "y" for n, v in names):
+                cause = "entry-for-unselected-choice-member"
+            else:
+                cause = "other"
+            res.fail(f"clean-but-fresh-session-dirty|{cause}", f"{where}: needs_save() is False, yet a session started afresh on the same file reports unsaved changes ({cause})")
+            return False
         disk = again
     if disk != would:
         import difflib
@@ -210,7 +227,7 @@ def check(case) -> Result:
                 if drv2.state.needs_save():
                     # the same file, the same configuration: a session started on it afresh says that saving is needed
                     # (e.g. because of entries for unknown options), so the running session must not claim to be clean
-                    return again + "\n<a fresh session on this file reports unsaved changes>"
+                    return again + FRESH_DIRTY
                 return again
 
             try:
